@@ -4803,6 +4803,19 @@ impl<'a, 'graph> Builder<'a, 'graph> {
           match result {
             Ok(response) => {
               self.check_specifier(&requested_specifier, response.specifier());
+              if matches!(response, PendingInfoResponse::Redirect { .. })
+                && requested_specifier == *response.specifier()
+                && self
+                  .graph
+                  .module_slots
+                  .get(&requested_specifier)
+                  .is_some_and(|s| s.is_pending())
+              {
+                // a redirect to the requested specifier itself is not recorded
+                // as a redirect, so remove the pending slot here or the reload
+                // below would find it and the entry would stay pending forever
+                self.graph.module_slots.remove(&requested_specifier);
+              }
 
               self.visit(
                 response,
